@@ -16,7 +16,7 @@ use std::collections::{BTreeMap, HashMap, VecDeque};
 use std::future::Future;
 use std::io::{BufRead, Write as _};
 use std::pin::Pin;
-use std::sync::atomic::{AtomicUsize, Ordering};
+use std::sync::atomic::{AtomicBool, AtomicUsize, Ordering};
 use std::sync::{Arc, Mutex};
 use std::task::{Context, Poll, Waker};
 use std::time::Duration;
@@ -31,6 +31,11 @@ use serde_json::{json, Value};
 
 const PREFACE: &[u8; 24] = b"PRI * HTTP/2.0\r\n\r\nSM\r\n\r\n";
 const WINDOW: usize = 32;
+const SPIN_EOF_READS: usize = 1000; // reads after end-of-stream before the in-band brake reports a spin
+const SPIN_CALLS: usize = 1_000_000; // IO calls of one vector before the brake panics
+const REAL_BUDGET: Duration = Duration::from_secs(5); // real-time watchdog per vector (backstop)
+const STALLS_PER_CLASS: u32 = 3; // after that many watchdog stalls the class's remaining vectors are skipped
+const MAX_LEAKED: usize = 12; // abandoned (still spinning) threads; after that everything left is skipped
 
 // ------------------------------------------------------------------------------------------------
 // concrete byte streams for a stream class (m, kind)
@@ -154,6 +159,9 @@ enum Item {
 
 #[derive(Default)]
 struct Script {
+    eof_reads: usize, // reads answered after the end of the stream was already delivered
+    calls: usize,     // every IO call
+    spun: bool,       // the code under test spins on the IO (see `brake`)
     data: Arc<Vec<u8>>,
     items: VecDeque<Item>,
     eof: bool,
@@ -175,6 +183,7 @@ impl ScriptIo {
     }
     /// Core read: copies at most `cap` bytes into `put`.
     fn read_with(&self, cx: &mut Context<'_>, cap: usize, put: &mut dyn FnMut(&[u8])) -> Poll<std::io::Result<()>> {
+        self.brake();
         let mut s = self.0.lock().unwrap();
         s.reads += 1;
         let log = s.caps.len() < 12;
@@ -184,6 +193,13 @@ impl ScriptIo {
         if s.eof {
             if log {
                 s.got.push(0);
+            }
+            s.eof_reads += 1;
+            if s.eof_reads > SPIN_EOF_READS {
+                // the reader keeps reading after the end of the stream without ever yielding: it spins.
+                // The run is recorded as `stalled-spinning`; the error only gets the thread back.
+                s.spun = true;
+                return Poll::Ready(Err(std::io::Error::new(std::io::ErrorKind::Other, "verif: spinning on reads after the end of the stream")));
             }
             return Poll::Ready(Ok(()));
         }
@@ -235,6 +251,19 @@ impl ScriptIo {
             }
         }
     }
+    /// In-band brake against busy loops in the code under test that go through the IO (a loop that never
+    /// returns Pending never lets the paused clock advance, so no virtual-time guard can fire): a vector
+    /// normally makes < 100 IO calls; after SPIN_CALLS the run is marked `stalled-spinning` and the call
+    /// panics (caught by run_conn) to get the thread back.
+    fn brake(&self) {
+        let mut s = self.0.lock().unwrap_or_else(|e| e.into_inner());
+        s.calls += 1;
+        if s.calls > SPIN_CALLS {
+            s.spun = true;
+            drop(s);
+            panic!("verif: the code under test spins on the scripted IO");
+        }
+    }
     /// true if the script is parked at a Hold marker; releases it.
     fn release_hold(&self) -> bool {
         let mut s = self.0.lock().unwrap();
@@ -265,13 +294,16 @@ impl hyper::rt::Read for ScriptIo {
 }
 impl hyper::rt::Write for ScriptIo {
     fn poll_write(self: Pin<&mut Self>, _cx: &mut Context<'_>, buf: &[u8]) -> Poll<std::io::Result<usize>> {
+        self.brake();
         self.0.lock().unwrap().out.extend_from_slice(buf);
         Poll::Ready(Ok(buf.len()))
     }
     fn poll_flush(self: Pin<&mut Self>, _cx: &mut Context<'_>) -> Poll<std::io::Result<()>> {
+        self.brake();
         Poll::Ready(Ok(()))
     }
     fn poll_shutdown(self: Pin<&mut Self>, _cx: &mut Context<'_>) -> Poll<std::io::Result<()>> {
+        self.brake();
         self.0.lock().unwrap().shutdown = true;
         Poll::Ready(Ok(()))
     }
@@ -284,13 +316,16 @@ impl tokio::io::AsyncRead for ScriptIo {
 }
 impl tokio::io::AsyncWrite for ScriptIo {
     fn poll_write(self: Pin<&mut Self>, _cx: &mut Context<'_>, buf: &[u8]) -> Poll<std::io::Result<usize>> {
+        self.brake();
         self.0.lock().unwrap().out.extend_from_slice(buf);
         Poll::Ready(Ok(buf.len()))
     }
     fn poll_flush(self: Pin<&mut Self>, _cx: &mut Context<'_>) -> Poll<std::io::Result<()>> {
+        self.brake();
         Poll::Ready(Ok(()))
     }
     fn poll_shutdown(self: Pin<&mut Self>, _cx: &mut Context<'_>) -> Poll<std::io::Result<()>> {
+        self.brake();
         self.0.lock().unwrap().shutdown = true;
         Poll::Ready(Ok(()))
     }
@@ -599,6 +634,26 @@ where
     }
 }
 
+/// Observation of a run that never answered nor closed because the code under test busy-loops.
+fn spinning_obs(how: &str) -> Obs {
+    Obs {
+        proto: "stalled-spinning".into(),
+        ans: "stalled-spinning".into(),
+        res: format!("err:stalled-spinning ({how})"),
+        stalled: true,
+        ..Default::default()
+    }
+}
+
+/// Runs `f` on its own thread with a REAL-time budget. None: it did not finish (the thread is abandoned).
+fn with_deadline<T: Send + 'static>(d: Duration, f: impl FnOnce() -> T + Send + 'static) -> Option<T> {
+    let (tx, rx) = std::sync::mpsc::channel();
+    std::thread::spawn(move || {
+        let _ = tx.send(f());
+    });
+    rx.recv_timeout(d).ok()
+}
+
 async fn run_conn(entry: Entry, data: Arc<Vec<u8>>, items: Vec<Item>, cancel: bool) -> Obs {
     let io = ScriptIo::new(data, items);
     let log = Log::default();
@@ -609,9 +664,13 @@ async fn run_conn(entry: Entry, data: Arc<Vec<u8>>, items: Vec<Item>, cancel: bo
     };
     // let detached tasks (h2 stream tasks) finish
     tokio::time::sleep(Duration::from_millis(1)).await;
-    let s = io.0.lock().unwrap();
+    let s = io.0.lock().unwrap_or_else(|e| e.into_inner());
     let (proto, human) = classify(&s.out);
-    let saw = log.0.lock().unwrap().join("|");
+    let saw = log.0.lock().unwrap_or_else(|e| e.into_inner()).join("|");
+    if s.spun {
+        // the connection neither answered nor closed: it was busy-looping on the IO when the brake stopped it
+        return Obs { saw, human, caps: s.caps.clone(), got: s.got.clone(), consumed: s.consumed, ..spinning_obs("in-band brake") };
+    }
     Obs {
         proto: if stalled { "stalled".into() } else { proto },
         saw,
@@ -878,6 +937,142 @@ fn io_script(items: &[Item]) -> Vec<usize> {
     }).collect()
 }
 
+struct Ctx {
+    fams: Arc<Vec<Family>>,
+    refs: Arc<Vec<RefObs>>,
+    work: Vec<(usize, usize, usize)>,
+    next: AtomicUsize,
+    extras: Mutex<Vec<(usize, usize, usize, usize)>>, // re-queued: (family, first mask, end, first pend index of the first mask)
+    skip_fam: Vec<AtomicBool>,
+    skip_all: AtomicBool,
+    seed: u64,
+    thresh: u64,
+    sample_all: bool,
+}
+
+#[derive(Default)]
+struct WState {
+    abandoned: bool,
+    done: bool,
+    cur: Option<(usize, usize, usize, usize)>, // the vector being executed: (family, mask index, pend index, block end)
+    beat: u64,                                  // vectors finished
+    groups: BTreeMap<GKey, Group>,
+    raws: Vec<(usize, Value)>,
+}
+
+fn raw_record(f: &Family, refo: &RefObs, o: &Obs, idx: usize, chunks: &[usize], pmask: u64, script: &[usize]) -> Value {
+    let mut r = conn_record(&f.sc, f.entry, o, refo);
+    let m = r.as_object_mut().unwrap();
+    m.insert("g".into(), json!(0));
+    m.insert("n".into(), json!(1));
+    m.insert("idx".into(), json!(idx));
+    m.insert("chunks".into(), json!(chunks));
+    m.insert("pendmask".into(), json!(pmask));
+    m.insert("io".into(), json!(script));
+    m.insert("caps".into(), json!(o.caps));
+    m.insert("got".into(), json!(o.got));
+    m.insert("res".into(), json!(o.res));
+    m.insert("refres".into(), json!(refo.unfrag.res));
+    r
+}
+
+/// One worker: its own paused current_thread runtime; results go to `st`, which the watchdog may take over.
+fn worker(ctx: Arc<Ctx>, st: Arc<Mutex<WState>>) {
+    let rt = new_rt();
+    loop {
+        let item = ctx.extras.lock().unwrap().pop().or_else(|| {
+            let wi = ctx.next.fetch_add(1, Ordering::Relaxed);
+            ctx.work.get(wi).map(|&(fi, a, b)| (fi, a, b, 0))
+        });
+        let Some((fi, a, b, pi0)) = item else { break };
+        let f = &ctx.fams[fi];
+        let refo = &ctx.refs[fi];
+        let alive = rt.block_on(async {
+            for mi in a..b {
+                let chunks = chunks_from_mask(f.masks[mi], f.sc.window());
+                for (pi, &pm) in f.pend.iter().enumerate() {
+                    if mi == a && pi < pi0 {
+                        continue;
+                    }
+                    let idx = f.base + mi * f.pend.len() + pi;
+                    let pmask = pend_mask(pm, nitems(&f.sc, chunks.len()));
+                    if ctx.skip_all.load(Ordering::Relaxed) || ctx.skip_fam[fi].load(Ordering::Relaxed) {
+                        let mut s = st.lock().unwrap();
+                        if s.abandoned {
+                            return false;
+                        }
+                        let key = GKey { fam: fi, proto: "skipped-after-stall".into(), saw: String::new(), ans: String::new() };
+                        add_group(&mut s.groups, key, idx, &chunks, pmask);
+                        continue;
+                    }
+                    st.lock().unwrap().cur = Some((fi, mi, pi, b));
+                    let items = build_items(&f.sc, &chunks, pmask);
+                    let script = io_script(&items);
+                    let o = run_conn(f.entry, f.sc.bytes.clone(), items, false).await;
+                    let mut s = st.lock().unwrap();
+                    if s.abandoned {
+                        return false; // the watchdog gave up on this vector and took the results over
+                    }
+                    s.cur = None;
+                    s.beat += 1;
+                    let key = GKey { fam: fi, proto: o.proto.clone(), saw: o.saw.clone(), ans: o.ans.clone() };
+                    add_group(&mut s.groups, key, idx, &chunks, pmask);
+                    if ctx.sample_all || splitmix(ctx.seed ^ (idx as u64).wrapping_mul(0x9E3779B97F4A7C15)) < ctx.thresh {
+                        s.raws.push((idx, raw_record(f, refo, &o, idx, &chunks, pmask, &script)));
+                    }
+                }
+            }
+            true
+        });
+        if !alive {
+            return;
+        }
+    }
+    st.lock().unwrap().done = true;
+}
+
+/// The single-protocol reference of a stream class (see RefObs).
+fn compute_ref(sc: &StreamClass) -> RefObs {
+    let rt = new_rt();
+    let e = if sc.m >= 24 { Entry::PlainH2 } else { Entry::PlainH1 };
+    let mut items = vec![];
+    if !sc.bytes.is_empty() {
+        items.push(Item::Chunk(0, sc.bytes.len()));
+    }
+    if sc.eof {
+        items.push(Item::Eof);
+    }
+    let unfrag = rt.block_on(run_conn(e, sc.bytes.clone(), items, false));
+    let mut answers = std::collections::BTreeSet::new();
+    answers.insert(unfrag.ans.clone());
+    let w = sc.window();
+    let mut masks: Vec<u32> = vec![0];
+    for a in 1..w {
+        masks.push(1 << (a - 1));
+        for b in (a + 1)..w {
+            masks.push((1 << (a - 1)) | (1 << (b - 1)));
+        }
+    }
+    if w >= 2 {
+        masks.push(((1u64 << (w - 1)) - 1) as u32);
+    }
+    rt.block_on(async {
+        for mk in masks {
+            let chunks = chunks_from_mask(mk, w);
+            // Pending placements too (on the chunkings with <= 1 cut): on truncated HTTP/2 streams what
+            // hyper manages to write before it sees the end of the stream depends on the polls in between
+            let modes: &[u64] = if mk.count_ones() <= 1 { &[0, 1, 2, 3, 4, 5, 6] } else { &[0] };
+            for &pm in modes {
+                let pmask = pend_mask(pm, nitems(sc, chunks.len()));
+                let items = build_items(sc, &chunks, pmask);
+                let o = run_conn(e, sc.bytes.clone(), items, false).await;
+                answers.insert(o.ans);
+            }
+        }
+    });
+    RefObs { unfrag, answers: answers.into_iter().collect() }
+}
+
 fn arg(args: &[String], name: &str) -> Option<String> {
     args.iter().position(|a| a == name).and_then(|i| args.get(i + 1).cloned())
 }
@@ -953,51 +1148,18 @@ fn main() {
     };
 
     // reference runs: the same bytes, unfragmented, against plain hyper http1 / http2
-    let rt = new_rt();
     let mut refs: HashMap<(i64, usize, String, usize, bool), RefObs> = HashMap::new();
-    let ref_for = |rt: &tokio::runtime::Runtime, sc: &StreamClass| -> RefObs {
-        let e = if sc.m >= 24 { Entry::PlainH2 } else { Entry::PlainH1 };
-        let mut items = vec![];
-        if !sc.bytes.is_empty() {
-            items.push(Item::Chunk(0, sc.bytes.len()));
-        }
-        if sc.eof {
-            items.push(Item::Eof);
-        }
-        let unfrag = rt.block_on(run_conn(e, sc.bytes.clone(), items, false));
-        let mut answers = std::collections::BTreeSet::new();
-        answers.insert(unfrag.ans.clone());
-        let w = sc.window();
-        let mut masks: Vec<u32> = vec![0];
-        for a in 1..w {
-            masks.push(1 << (a - 1));
-            for b in (a + 1)..w {
-                masks.push((1 << (a - 1)) | (1 << (b - 1)));
-            }
-        }
-        if w >= 2 {
-            masks.push(((1u64 << (w - 1)) - 1) as u32);
-        }
-        rt.block_on(async {
-            for mk in masks {
-                let chunks = chunks_from_mask(mk, w);
-                // Pending placements too (on the chunkings with <= 1 cut): on truncated HTTP/2 streams what
-                // hyper manages to write before it sees the end of the stream depends on the polls in between
-                let modes: &[u64] = if mk.count_ones() <= 1 { &[0, 1, 2, 3, 4, 5, 6] } else { &[0] };
-                for &pm in modes {
-                    let pmask = pend_mask(pm, nitems(sc, chunks.len()));
-                    let items = build_items(sc, &chunks, pmask);
-                    let o = run_conn(e, sc.bytes.clone(), items, false).await;
-                    answers.insert(o.ans);
-                }
-            }
-        });
-        RefObs { unfrag, answers: answers.into_iter().collect() }
+    let ref_for = |sc: &StreamClass| -> RefObs {
+        let sc2 = sc.clone();
+        with_deadline(Duration::from_secs(120), move || compute_ref(&sc2)).unwrap_or_else(|| {
+            eprintln!("the plain hyper reference does not finish on stream class m={} kind={} len={} eof={}", sc.m, sc.kind, sc.len, sc.eof);
+            std::process::exit(3)
+        })
     };
     for f in &fams {
         let key = (f.sc.sid, f.sc.m, f.sc.kind.clone(), f.sc.len, f.sc.eof);
         if !refs.contains_key(&key) {
-            let o = ref_for(&rt, &f.sc);
+            let o = ref_for(&f.sc);
             refs.insert(key, o);
         }
     }
@@ -1008,7 +1170,6 @@ fn main() {
     let refs_a: Arc<Vec<RefObs>> = Arc::new(
         fams.iter().map(|f| refs[&(f.sc.sid, f.sc.m, f.sc.kind.clone(), f.sc.len, f.sc.eof)].clone()).collect(),
     );
-    let next = Arc::new(AtomicUsize::new(0));
     // work items: (family, block of masks)
     const BLOCK: usize = 256;
     let mut work: Vec<(usize, usize, usize)> = Vec::new();
@@ -1020,67 +1181,96 @@ fn main() {
             a = b;
         }
     }
-    let work = Arc::new(work);
     // raw sample: vector idx is sampled iff hash(seed, idx) % total < sample (deterministic, thread independent)
     let thresh: u64 = if total == 0 { 0 } else { ((sample as u128 * u64::MAX as u128) / total.max(1) as u128).min(u64::MAX as u128) as u64 };
     let sample_all = sample >= total;
-    let mut handles = Vec::new();
-    for _ in 0..threads.max(1) {
-        let fams = fams.clone();
-        let refs_a = refs_a.clone();
-        let next = next.clone();
-        let work = work.clone();
-        handles.push(std::thread::spawn(move || {
-            let rt = new_rt();
-            let mut groups: BTreeMap<GKey, Group> = BTreeMap::new();
-            let mut raws: Vec<(usize, Value)> = Vec::new();
-            loop {
-                let wi = next.fetch_add(1, Ordering::Relaxed);
-                if wi >= work.len() {
-                    break;
-                }
-                let (fi, a, b) = work[wi];
-                let f = &fams[fi];
-                let refo = &refs_a[fi];
-                rt.block_on(async {
-                    for mi in a..b {
-                        let chunks = chunks_from_mask(f.masks[mi], f.sc.window());
-                        for (pi, &pm) in f.pend.iter().enumerate() {
-                            let idx = f.base + mi * f.pend.len() + pi;
-                            let pmask = pend_mask(pm, nitems(&f.sc, chunks.len()));
-                            let items = build_items(&f.sc, &chunks, pmask);
-                            let script = io_script(&items);
-                            let o = run_conn(f.entry, f.sc.bytes.clone(), items, false).await;
-                            let key = GKey { fam: fi, proto: o.proto.clone(), saw: o.saw.clone(), ans: o.ans.clone() };
-                            add_group(&mut groups, key, idx, &chunks, pmask);
-                            if sample_all || splitmix(seed ^ (idx as u64).wrapping_mul(0x9E3779B97F4A7C15)) < thresh {
-                                let mut r = conn_record(&f.sc, f.entry, &o, refo);
-                                let m = r.as_object_mut().unwrap();
-                                m.insert("g".into(), json!(0));
-                                m.insert("n".into(), json!(1));
-                                m.insert("idx".into(), json!(idx));
-                                m.insert("chunks".into(), json!(chunks));
-                                m.insert("pendmask".into(), json!(pmask));
-                                m.insert("io".into(), json!(script));
-                                m.insert("caps".into(), json!(o.caps));
-                                m.insert("got".into(), json!(o.got));
-                                m.insert("res".into(), json!(o.res));
-                                m.insert("refres".into(), json!(refo.unfrag.res));
-                                raws.push((idx, r));
-                            }
-                        }
-                    }
-                });
-            }
-            (groups, raws)
-        }));
+    let ctx = Arc::new(Ctx {
+        skip_fam: (0..fams.len()).map(|_| AtomicBool::new(false)).collect(),
+        fams: fams.clone(),
+        refs: refs_a.clone(),
+        work,
+        next: AtomicUsize::new(0),
+        extras: Mutex::new(Vec::new()),
+        skip_all: AtomicBool::new(false),
+        seed,
+        thresh,
+        sample_all,
+    });
+    // Workers run the vectors; this thread is the REAL-time watchdog: a worker that stays on one vector longer
+    // than REAL_BUDGET is abandoned (its thread keeps spinning, it cannot be killed), the vector is recorded as
+    // `stalled-spinning`, the rest of its block is re-queued and a fresh worker takes over.
+    struct Sup {
+        st: Arc<Mutex<WState>>,
+        beat: u64,
+        since: std::time::Instant,
+        closed: bool,
     }
+    let spawn_worker = |ctx: &Arc<Ctx>| -> Sup {
+        let st = Arc::new(Mutex::new(WState::default()));
+        let (c, s2) = (ctx.clone(), st.clone());
+        std::thread::spawn(move || worker(c, s2));
+        Sup { st, beat: 0, since: std::time::Instant::now(), closed: false }
+    };
+    let mut sups: Vec<Sup> = (0..threads.max(1)).map(|_| spawn_worker(&ctx)).collect();
     let mut groups: BTreeMap<GKey, Group> = BTreeMap::new();
     let mut raws: Vec<(usize, Value)> = Vec::new();
-    for h in handles {
-        let (g, r) = h.join().expect("worker thread");
-        merge_groups(&mut groups, g);
-        raws.extend(r);
+    let mut leaked = 0usize;
+    let mut class_stalls: HashMap<i64, u32> = HashMap::new();
+    loop {
+        std::thread::sleep(Duration::from_millis(10));
+        let mut fresh: Vec<Sup> = Vec::new();
+        for w in sups.iter_mut().filter(|w| !w.closed) {
+            let mut st = w.st.lock().unwrap_or_else(|e| e.into_inner());
+            if st.done {
+                merge_groups(&mut groups, std::mem::take(&mut st.groups));
+                raws.append(&mut st.raws);
+                w.closed = true;
+                continue;
+            }
+            if st.beat != w.beat || st.cur.is_none() {
+                w.beat = st.beat;
+                w.since = std::time::Instant::now();
+                continue;
+            }
+            if w.since.elapsed() < REAL_BUDGET {
+                continue;
+            }
+            // abandon
+            st.abandoned = true;
+            merge_groups(&mut groups, std::mem::take(&mut st.groups));
+            raws.append(&mut st.raws);
+            let (fi, mi, pi, b) = st.cur.unwrap();
+            w.closed = true;
+            drop(st);
+            let f = &ctx.fams[fi];
+            let chunks = chunks_from_mask(f.masks[mi], f.sc.window());
+            let idx = f.base + mi * f.pend.len() + pi;
+            let pmask = pend_mask(f.pend[pi], nitems(&f.sc, chunks.len()));
+            let o = spinning_obs("real-time watchdog");
+            eprintln!("sniff: watchdog: vector {idx} (m={} kind={} len={} eof={} entry={} chunks={:?} pendmask={pmask}) did not finish in {:?} of real time",
+                f.sc.m, f.sc.kind, f.sc.len, f.sc.eof, f.entry.name(), chunks, REAL_BUDGET);
+            add_group(&mut groups, GKey { fam: fi, proto: o.proto.clone(), saw: o.saw.clone(), ans: o.ans.clone() }, idx, &chunks, pmask);
+            raws.push((idx, raw_record(f, &ctx.refs[fi], &o, idx, &chunks, pmask, &io_script(&build_items(&f.sc, &chunks, pmask)))));
+            ctx.extras.lock().unwrap().push((fi, mi, b, pi + 1));
+            leaked += 1;
+            let n = class_stalls.entry(f.sc.sid).or_insert(0);
+            *n += 1;
+            if *n >= STALLS_PER_CLASS {
+                for (i, g) in ctx.fams.iter().enumerate() {
+                    if g.sc.sid == f.sc.sid {
+                        ctx.skip_fam[i].store(true, Ordering::SeqCst);
+                    }
+                }
+            }
+            if leaked >= MAX_LEAKED {
+                ctx.skip_all.store(true, Ordering::SeqCst);
+            }
+            fresh.push(spawn_worker(&ctx));
+        }
+        sups.extend(fresh);
+        if sups.iter().all(|w| w.closed) {
+            break;
+        }
     }
     raws.sort_by_key(|(i, _)| *i);
     let fam_wall = t0.elapsed().as_secs_f64();
@@ -1100,6 +1290,9 @@ fn main() {
         let mut r = conn_record(&f.sc, f.entry, &o, refo);
         let m = r.as_object_mut().unwrap();
         m.insert("g".into(), json!(1));
+        if k.proto == "skipped-after-stall" {
+            m.insert("k".into(), json!("skipped"));
+        }
         m.insert("fam".into(), json!(k.fam));
         m.insert("n".into(), json!(g.n));
         m.insert("nsplit".into(), json!(g.nsplit));
@@ -1137,7 +1330,7 @@ fn main() {
         // "hold": k = the client pauses after k chunks; "cancel": graceful shutdown is requested during the pause
         let cancel = v["cancel"].as_u64().map(|x| x as usize);
         let hold = cancel.or(v["hold"].as_u64().map(|x| x as usize));
-        let refo = ref_for(&rt, &sc);
+        let refo = ref_for(&sc);
         let mut items = build_items(&sc, &chunks, pmask);
         if let Some(k) = hold {
             // insert the Hold marker before the (k+1)-th data/eof item
@@ -1155,7 +1348,9 @@ fn main() {
             items.insert(at, Item::Hold);
         }
         let script = io_script(&items);
-        let o = rt.block_on(run_conn(entry, sc.bytes.clone(), items, cancel.is_some()));
+        let (bytes, canc) = (sc.bytes.clone(), cancel.is_some());
+        let o = with_deadline(REAL_BUDGET, move || new_rt().block_on(run_conn(entry, bytes, items, canc)))
+            .unwrap_or_else(|| spinning_obs("real-time watchdog"));
         let mut r = conn_record(&sc, entry, &o, &refo);
         let m = r.as_object_mut().unwrap();
         m.insert("g".into(), json!(0));
@@ -1225,7 +1420,9 @@ fn main() {
     }
     let rw_wall = t1.elapsed().as_secs_f64();
 
-    emit(&json!({"k":"summary","vectors":total,"groups":ngroups,"raw":nraw,"explicit":nexp,
+    let count = |p: &str| -> u64 { groups.iter().filter(|(k, _)| k.proto == p).map(|(_, g)| g.n).sum() };
+    emit(&json!({"k":"summary","stalled_spinning":count("stalled-spinning"),"skipped_after_stall":count("skipped-after-stall"),
+        "watchdog_abandoned_threads":leaked,"vectors":total,"groups":ngroups,"raw":nraw,"explicit":nexp,
         "rewind_vectors":nrw,"rewind_groups":nrg,"families":fams.len(),
         "conn_wall_s":fam_wall,"rewind_wall_s":rw_wall,"threads":threads,"seed":seed}));
     out.flush().unwrap();
